@@ -773,7 +773,18 @@ let oracle (kind : string) (body : sexp list) (impl : string) : string option =
       else if List.exists (fun k -> not (quiet k false toks)) probes then Some "reject:C02 a subscriber was called after its unsubscribe() had returned"
       else if List.exists (fun k -> not (subseq (items k) taps)) probes
       then Some "reject:C11 a subscriber received an item that did not pass the shared source, or one of them twice, or out of order"
-      else Some "ok"
+      else begin
+        (* every subscriber present at an emission receives it: one that joined in the prologue and never left has every item
+           that passed the tap *)
+        let setup = (match List.nth_opt body 3 with Some s -> args s | None -> []) in
+        let scripts = List.map (fun s -> match s with List l -> l | Atom _ -> []) (args (List.nth body 1)) in
+        let joined = List.filter_map (function List [Atom "sub"; k] -> Some (int_of k) | _ -> None) setup in
+        let left = List.filter_map (function List [Atom "unsub"; k] -> Some (int_of k) | _ -> None) (setup @ List.concat scripts) in
+        let stay = List.filter (fun k -> not (List.mem k left)) joined in
+        if List.exists (fun k -> items k <> taps) stay
+        then Some "reject:C11 a subscriber that was present throughout missed an item that passed the shared source"
+        else Some "ok"
+      end
   | "ileave2" ->
       if impl = "-" then Some "ok" else
       let pipe = List.nth body 0 in
